@@ -214,5 +214,8 @@ def run(chk, ctx):
     r3(chk, ctx)
     r4(chk, ctx)
     r5(chk, ctx)
+    from . import round3
+    round3.orphan_sweep_rearms(chk, ctx)
+    round3.json_write_through(chk, ctx)    # definitions accepted before the crash are on disk
     chk.assume("the broker redelivers every unacknowledged message with redelivered=True after a restart with the same instance id")
     chk.assume("engine-internal calls do not raise; a crash is modelled as stopping at a CFG node")
